@@ -1,5 +1,5 @@
 PROP = {
-    "coq": ["C15", "C15b"],
+    "coq": ["C15", "C15b", "C15c"],
     "exhaustive": False,
     "rule": "extractRole on synthetic x509.Certificate values (only Extensions populated) through VerifExtractRole: "
             "all 256 identifier octets x 13 length/content forms (+ as first/second of two role extensions); "
@@ -16,11 +16,19 @@ PROP = {
             "the key pair / key pair and subject / subject and serial number / everything but the role extension / nothing, with the "
             "role extension varying from session to session (UTF8String r1, r2, absent, duplicated, other string types, malformed "
             "lengths, trailing bytes, invalid UTF-8, near-miss OIDs; 7 fixed orders + random ones per family, some sessions refused "
-            "at TLS 1.1): every handler invocation must carry the role stated by the leaf of ITS session, whatever came before.",
+            "at TLS 1.1): every handler invocation must carry the role stated by the leaf of ITS session, whatever came before."
+            " Scenario tlsroleresume (real TLS handshakes, Model/RoleResume.v tls_serve_cached, theorems c15_resume_* of C15c): as "
+            "tlsroleseq, with harness clients that keep a tls.ClientSessionCache per client identity across their connections (TLS 1.2 "
+            "tickets and TLS 1.3 PSKs; the same client 3-4 times in a row, two and three clients with their own caches taking turns, "
+            "version changes, clients without a cache, random orders), so that later sessions are resumed when the server allows it: "
+            "the role must be that of the leaf of the client of THAT session, resumed or not (DidResume and 'the client held a ticket' "
+            "are recorded in the distribution only). tlsroleresumectl: the same harness client does resume against a crypto/tls server "
+            "that accepts its own tickets, and that server sees the client's leaf in PeerCertificates[0] of resumed sessions.",
     "assumptions": [
         "lengths are below 2^31 (Go's encoding/asn1 refuses larger ones; a TLS handshake message cannot carry one)",
         "extension values are octet strings (each element below 256)",
-        "TLS sessions hand extractRole(PeerCertificates[0]) to the handlers unchanged (server.go startTLS/handleTCPClient, read; exercised by the C14 handshake matrix and, for sequences of sessions on one server, by scenario tlsroleseq)",
+        "TLS sessions hand extractRole(PeerCertificates[0]) to the handlers unchanged (server.go startTLS/handleTCPClient, read; exercised by the C14 handshake matrix and, for sequences of sessions on one server, by scenario tlsroleseq; with clients offering to resume, by scenario tlsroleresume)",
+        "crypto/tls restores version and peer certificates of the original session on a resumed one (tls_resume_documented; looked at by tlsroleresumectl), and a session cache is used by one client identity only",
     ],
     "trusted": [
         "Go's encoding/asn1 (Unmarshal into a string, parseTagAndLength) and unicode/utf8.Valid are MODELLED for this call path (Model/Der.v, Model/Utf8.v) and tied to the real packages by the correspondence run only",
